@@ -34,11 +34,12 @@ ASSUMPTIONS = ['the running interpreter\'s dataclasses module (3.12) is the refe
                'the generated method source has Python semantics once cdef declarations and <T> casts are dropped (fields of object/int type)']
 
 # No EXEMPT entries here: the V1 entries for RemoveAssignmentsToNames.visit_CClassNode / visit_PyClassNode live in sa/exemptions.py.
-# Findings on the unchanged tree (all reproduced by compiling and running a module outside /repo, see the final report of the builder):
-#   C30-BODY generate_hash_code:field(compare=False)   field.hash.value of an unspecified hash is NoneNode.value == "Py_None", never None
-#   C30-BODY generate_match_args:init=False             init=False fields are listed in __match_args__
-#   C30-GEN  generate_order_code (order=True, explicit) a user-defined __lt__/... is kept silently, the stdlib raises TypeError
-#   C30-FLD  Field.__init__:is_initvar / is_classvar     internal parameters are reachable from a user's field(...) keywords
+# Findings on the ORIGINAL tree, all reproduced by compiling and running a module outside /repo and since repaired in /repo
+# (the check is silent on the repaired tree; reverting a fix brings the finding back, see MUTATIONS):
+#   C30-BODY generate_hash_code:field(compare=False)   field.hash.value of an unspecified hash was NoneNode.value == "Py_None", never None
+#   C30-BODY generate_match_args:init=False             init=False fields were listed in __match_args__
+#   C30-GEN  generate_order_code (order=True, explicit) a user-defined __lt__/... was kept silently, the stdlib raises TypeError
+#   C30-FLD  Field.__init__:is_initvar / is_classvar     internal parameters were reachable from a user's field(...) keywords
 
 MUTATIONS = [
     # (file, edit, rule that reported it) — all on Cython/Compiler/Dataclass.py, each tried on a scratch copy; every one was reported with the construct in the message
@@ -68,7 +69,7 @@ MUTATIONS = [
     ('Dataclass.py', 'handle_cclass_dataclass: generate_hash_code(code, kwargs["eq"], kwargs["unsafe_hash"], ...) (swapped)', 'C30-HASH'),
     ('Dataclass.py', 'generate_hash_code: `if not eq: return` merged into `if not eq or not frozen: return`', 'C30-HASH'),
     ('Dataclass.py', 'generate_order_code: ("<", "__lt__"), ("<=", "__le__") -> names swapped', 'C30-CMP (+C30-BODY)'),
-    ('Dataclass.py', 'generate_eq_code: "==" -> "!="', 'ANALYSIS-ERROR naming generate_eq_code (generated source `self.a ! other.a` is no longer parsable); C30-CMP reports it when BODY is skipped'),
+    ('Dataclass.py', 'generate_eq_code: "==" -> "!="', 'C30-CMP (the generated source `self.a ! other.a` is unparsable, so C30-BODY is recorded as not evaluated)'),
     ('Dataclass.py', "generate_cmp_code: 'True' if '=' in op else 'False' -> swapped", 'C30-BODY'),
     ('Dataclass.py', "generate_cmp_code: op_without_equals = op.replace('=', '') -> op", 'C30-BODY'),
     ('Dataclass.py', 'generate_cmp_code: `!=` -> `==` in the emitted early-exit line', 'C30-BODY'),
@@ -79,7 +80,16 @@ MUTATIONS = [
     ('Dataclass.py', 'generate_hash_code: reversed(names); selection ignores field.hash', 'C30-BODY'),
     ('Dataclass.py', 'generate_match_args: `if not field_is_kw_only` -> `if field_is_kw_only`', 'C30-BODY'),
     ('Dataclass.py', 'RemoveAssignmentsToNames.visit_SingleAssignmentNode -> visit_SingleAssignNode', 'V1'),
+    # the five defects found on the original tree (since repaired in /repo): each fix reverted on a scratch copy is reported again
+    ('Dataclass.py', 'REVERT hash fix: `field.hash.is_none` -> `field.hash.value is None` in generate_hash_code', 'C30-BODY generate_hash_code:field(compare=False)'),
+    ('Dataclass.py', 'REVERT __match_args__ fix: `if field.init.value and not field_is_kw_only` -> `if not field_is_kw_only`', 'C30-BODY generate_match_args:init=False'),
+    ('Dataclass.py', 'REVERT order fix: drop `if node.scope.lookup_here(name): error(...)` from generate_order_code', 'C30-GEN generate_order_code:*:(order=True, explicit=True)'),
+    ('Dataclass.py', 'REVERT field() keyword fix: Field.__init__ takes is_initvar=False again (self.is_initvar = is_initvar)', 'C30-FLD Field.__init__:is_initvar'),
+    ('Dataclass.py', 'REVERT field() keyword fix: Field.__init__ takes is_classvar=False again', 'C30-FLD Field.__init__:is_classvar'),
+    ('Dataclass.py', 'generate_order_code: `if node.scope.lookup_here(name): error` -> `if not ...: error`', 'C30-GEN (BODY recorded as not evaluated)'),
     # behaviour-preserving edits: no new finding
+    ('Dataclass.py', 'Field.__init__(self, pos, /, ...) -> (self, pos, ...) (pos is bound positionally at every call site either way)', 'silent'),
+    ('Dataclass.py', 'generate_order_code: `existing = node.scope.lookup_here(name); if existing is not None and existing: error(...)`', 'silent'),
     ('Dataclass.py', 'rename locals (kwargs -> opts, hash_entry -> he, names -> cmp_names), `if not eq: return` -> `if eq: pass / else: return`', 'silent'),
     ('Dataclass.py', 'reorder rows of the kwargs dict and of Field.literal_keys; rename parameter unsafe_hash -> uh in generate_hash_code', 'silent'),
     ('Dataclass.py', 'kwargs as a dict literal; hash guards restructured (`if not unsafe_hash and not eq: return`)', 'silent'),
@@ -1161,4 +1171,14 @@ def run(ctx):
         r.violate('Dataclass.handle_cclass_dataclass:crash', model.rel, getattr(e.node, 'lineno', 1),
                   'handle_cclass_dataclass raises %s for every cdef dataclass (line %s: %s)' % (e.what, getattr(e.node, 'lineno', '?'), node_src(e.node, 80) if e.node is not None else ''))
         return [r, rule_FLD(model), rule_V1(ctx, model)]
-    return [rule_OPT(model, info), rule_FLD(model)] + rules_GEN(model, info) + [rule_BODY(model, info), rule_V1(ctx, model)]
+    first = [rule_OPT(model, info), rule_FLD(model)] + rules_GEN(model, info)
+    try:
+        body = rule_BODY(model, info)
+    except AnalysisError as e:
+        # BODY evaluates what the generators emit when they do generate; if the generation decisions / operator pairs are
+        # already reported as wrong (GEN, HASH, CMP findings) the run fails on those and BODY is recorded as not evaluated.
+        if not any(r.findings for r in first if r.id in ('C30-GEN', 'C30-HASH', 'C30-CMP')):
+            raise
+        body = Rule('C30-BODY', 'generated method source vs the stdlib dataclass — NOT EVALUATED in this run (see info)', floor=0)
+        body.info('not evaluated because C30-GEN/HASH/CMP already report violations and the generated code could not be analysed: %s' % e)
+    return first + [body, rule_V1(ctx, model)]
